@@ -1,7 +1,7 @@
 (* C17, tie T: the threshold tests of `_expire_cache` regenerated from the source (Gen/CacheExpireGen.v) give exactly the
    hand model's expiry (Model/Cache.v `expire true`).  An edit of a test in the source changes a generated definition and
    breaks one of these proofs. *)
-From Coq Require Import ZArith NArith List Bool Lia.
+From Coq Require Import ZArith NArith List Bool Lia ZifyBool.
 From V Require Import Model.Cache Gen.CacheExpireGen Proofs.CacheProofs Proofs.CacheProofsC.
 Import ListNotations.
 Open Scope Z_scope.
@@ -9,28 +9,39 @@ Open Scope Z_scope.
 Lemma gen_structure : gen_scan_before_modes = true /\ gen_no_mode_returns_first = true.
 Proof. split; reflexivity. Qed.
 
+(* the proofs below are semantic (lia over the generated arithmetic / comparisons): an equivalent spelling of a test in the
+   source (`n_over >= 1`, `thr < size`) still checks, a different test does not *)
 Lemma gen_take_files : forall (l : list entry) n thr,
   gen_take (gen_files_over (Z.of_nat n) thr) (gen_files_guard (gen_files_over (Z.of_nat n) thr) thr) l = firstn (n_over n thr) l.
 Proof.
   intros. unfold gen_take, gen_files_guard, gen_files_over, n_over.
-  destruct (Z.of_nat n - thr >? 0) eqn:E; [reflexivity|].
-  assert (Z.to_nat (Z.of_nat n - thr) = 0%nat) as -> by lia. reflexivity.
+  match goal with |- (if ?g then _ else _) = _ => destruct g eqn:E end.
+  - f_equal; lia.
+  - replace (Z.to_nat (Z.of_nat n - thr)) with 0%nat by lia. reflexivity.
 Qed.
 
 Lemma gen_take_datasets : forall (l : list N) n thr,
   gen_take (gen_datasets_over (Z.of_nat n) thr) (gen_datasets_guard (gen_datasets_over (Z.of_nat n) thr) thr) l = firstn (n_over n thr) l.
 Proof.
   intros. unfold gen_take, gen_datasets_guard, gen_datasets_over, n_over.
-  destruct (Z.of_nat n - thr >? 0) eqn:E; [reflexivity|].
-  assert (Z.to_nat (Z.of_nat n - thr) = 0%nat) as -> by lia. reflexivity.
+  match goal with |- (if ?g then _ else _) = _ => destruct g eqn:E end.
+  - f_equal; lia.
+  - replace (Z.to_nat (Z.of_nat n - thr)) with 0%nat by lia. reflexivity.
 Qed.
 
+Lemma gen_size_stop_eq : forall sz thr, gen_size_stop sz thr = (sz <=? thr).
+Proof. intros. unfold gen_size_stop. lia. Qed.
+Lemma gen_size_enter_eq : forall sz thr, gen_size_enter sz thr = (thr <? sz).
+Proof. intros. unfold gen_size_enter. lia. Qed.
+Lemma gen_age_old_eq : forall age thr, gen_age_old age thr = (thr <? age).
+Proof. intros. unfold gen_age_old. lia. Qed.
+
 Lemma gen_size_loop_eq : forall thr ks dm, gen_size_loop thr ks dm = size_loop thr ks dm.
-Proof. induction ks; intros; cbn [gen_size_loop size_loop]; [reflexivity|]. unfold gen_size_stop. rewrite IHks. reflexivity. Qed.
+Proof. induction ks; intros; cbn [gen_size_loop size_loop]; [reflexivity|]. rewrite gen_size_stop_eq, IHks. reflexivity. Qed.
 
 Lemma gen_age_loop_eq : forall thr now l dm, gen_age_loop thr now l dm = age_loop true thr now l dm.
 Proof.
-  induction l; intros; cbn [gen_age_loop age_loop]; [reflexivity|]. unfold gen_age_old, age_of. rewrite Z.gtb_ltb, IHl. reflexivity.
+  induction l; intros; cbn [gen_age_loop age_loop]; [reflexivity|]. rewrite gen_age_old_eq, IHl. reflexivity.
 Qed.
 
 Lemma gen_expire_eq : forall c now dm, gen_expire c now dm = expire true c now dm.
@@ -38,7 +49,7 @@ Proof.
   intros. unfold gen_expire, expire. destruct (c_mode c); try reflexivity; cbv zeta; rewrite (proj1 gen_structure).
   - rewrite gen_take_files. reflexivity.
   - rewrite gen_take_datasets. reflexivity.
-  - unfold gen_size_enter. rewrite Z.gtb_ltb, gen_size_loop_eq. reflexivity.
+  - rewrite gen_size_enter_eq, gen_size_loop_eq. reflexivity.
   - apply gen_age_loop_eq.
 Qed.
 
